@@ -67,13 +67,13 @@ def run(ctx, chk):
                             good = False
                             detail += ' (taken from a clock read AFTER the query at %s)' % ef2['site'][2]
                 chk.ob('C12.O3', 'poll:as-of-is-pre-query-read', good, info['sends'][0][1]['site'][2], detail)
-        chk.floor('C12.O1', 'paths through the chrony query', n_q, 2)
+        chk.floor('C12.O1', 'paths through the chrony query', n_q, 1)
         # CFG form: a clock read (direct, or a call that reaches one) dominates every call that reaches the chrony query;
         # a single call that reaches both is checked inside its callee
         n_q = [0]
 
         def is_read(nm):
-            return 'clock_gettime' in nm
+            return common.is_clock_read(nm)
 
         def cfg_ok(body, depth=0):
             reads, queries = [], []
@@ -128,7 +128,7 @@ def run(ctx, chk):
                 # the monotonic reading must not be the centre, the realtime reading must not be the age
                 chk.ob('C12.O2', 'now:roles', uses_real and not _centre_is(e, info['mono']), p.where[2],
                        'interval centre uses the REALTIME reading: %s' % uses_real)
-        chk.floor('C12.O2', 'paths of now() with two clock reads', n2, 2)
+        chk.floor('C12.O2', 'paths of now() with two clock reads', n2, 1)
 
 
 def _centre_is(v, leaf):
